@@ -216,16 +216,29 @@ func solveUnit(sc *Script, opt solveOpts) []ObResult {
 		}
 	}
 	var again chan string
+	actx, acancel := context.WithCancel(context.Background())
+	defer acancel()
 	if left > 0 {
 		again = make(chan string, 1)
 		go func() {
 			opt.sem <- struct{}{}
 			defer func() { <-opt.sem }()
-			out, _ := runSolverBudget(context.Background(), solvers[0], incFile, scaled(opt.quickMs*6), scaled(opt.quickMs*12))
+			out, _ := runSolverBudget(actx, solvers[0], incFile, scaled(opt.quickMs*6), scaled(opt.quickMs*12))
 			again <- out
 		}()
 	}
 	out := solveFallback(sc, opt, dir, idx, results)
+	stillOpen := false
+	for k := range out {
+		if !out[k].IsCover && out[k].Status == "undecided" && !noSecondChance[out[k].Name] {
+			stillOpen = true
+		}
+	}
+	if !stillOpen {
+		// everything was settled by the stand-alone race: the second run is not needed
+		acancel()
+		again = nil
+	}
 	if again != nil {
 		redo := map[int]*ObResult{}
 		for _, i := range idx {
@@ -384,6 +397,11 @@ func solveFallback(sc *Script, opt solveOpts, dir string, idx []int, results map
 				r.Output = strings.Join(notes, "; ")
 				return
 			}
+			if noSecondChance[r.Name] {
+				r.Status = "undecided"
+				r.Output = strings.Join(notes, "; ")
+				return
+			}
 			// second chance: nothing answered within the budget. On a loaded machine a query that
 			// normally takes a few seconds can miss it; before an obligation is reported as undecided
 			// (which ends the run with a VIOLATION line) it is tried once more, stand-alone, with five
@@ -467,6 +485,9 @@ func loadScale() float64 {
 }
 
 func scaled(ms int) int { return int(float64(ms) * loadScale()) }
+
+// noSecondChance: obligation names that are expected to stay unproved (known findings)
+var noSecondChance = map[string]bool{}
 
 var quickMsGlobal = 10000
 
